@@ -5,6 +5,7 @@ import (
 	"math/rand/v2"
 	"os"
 	"regexp"
+	"slices"
 	"strconv"
 	"strings"
 	"time"
@@ -190,52 +191,70 @@ var kC20Cmd = run.NewKind("c20.command-rss", func(c *run.Ctx, t c20CmdCase) *run
 	}
 	// The verdict is on the collector's own account of the reachable heap (GODEBUG=gctrace=1: "A->B->C MB", C is what
 	// the cycle found reachable), not on the resident set: under CPU starvation the heap of a Go process overshoots its
-	// goal by a load-dependent amount, the reachable part does not. The kernel's peak RSS is recorded as a gauge only.
-	var rss, live [2]int64
-	var outs [2]string
-	sizes := []int{4 << 20, 48 << 20}
-	for k, size := range sizes {
+	// goal by a load-dependent amount. The reachable figure of a single cycle is load-dependent too, though less so
+	// (everything allocated while a starved mark phase drags on counts as reachable), therefore: the command runs on
+	// one P (mutator and collector are starved together, and the mutator has to assist), the figure of a run is the
+	// SMALLEST one among its last four cycles (something retained per value consumed is in every late cycle, an
+	// overshoot is in one; with a growing heap cycles get rare, so "late" is counted in cycles from the end), and a growth must show in three runs out of three. Peak RSS is recorded as a gauge only.
+	measure := func(size int) (live, rss int64, f *run.Fail, inconclusive string) {
 		n := size / len(unit)
-		env := append(append([]string{}, run.DefaultEnv()...), "GODEBUG=gctrace=1")
+		env := append(append([]string{}, run.DefaultEnv()...), "GODEBUG=gctrace=1", "GOMAXPROCS=1")
 		res := run.CLI(run.CLIOpt{Wrap: []string{"/usr/bin/time", "-f", "VERIF-MAXRSS %M"}, Args: t.Args, Stdin: []byte(strings.Repeat(unit, n)), Timeout: 300 * time.Second, Env: env})
 		if res.TimedOut || res.StartErr != nil {
-			c.Inconclusive("cli-timeout")
-			return nil
+			return 0, 0, nil, "cli-timeout"
 		}
 		stderr := string(res.Stderr)
 		i := strings.LastIndex(stderr, "VERIF-MAXRSS ")
 		if i < 0 || res.Code != 0 {
-			return run.Failf("gojq %q on a %d MiB %s stream: exit %d, stderr %s", t.Args, size>>20, t.Style, res.Code, run.Clip(c20NoGCTrace(stderr)))
+			return 0, 0, run.Failf("gojq %q on a %d MiB %s stream: exit %d, stderr %s", t.Args, size>>20, t.Style, res.Code, run.Clip(c20NoGCTrace(stderr))), ""
 		}
 		kib, err := strconv.ParseInt(strings.TrimSpace(stderr[i+len("VERIF-MAXRSS "):]), 10, 64)
 		if err != nil {
-			c.Inconclusive("unreadable-rss")
-			return nil
+			return 0, 0, nil, "unreadable-rss"
 		}
-		rss[k] = kib
-		cycles := 0
+		var cycles []int64
 		for _, m := range c20GCLine.FindAllStringSubmatch(stderr, -1) {
 			if v, err := strconv.ParseInt(m[1], 10, 64); err == nil {
-				live[k] = max(live[k], v)
-				cycles++
+				cycles = append(cycles, v)
 			}
 		}
-		if cycles == 0 {
-			c.Inconclusive("no-gc-trace")
-			return nil
+		if len(cycles) == 0 {
+			return 0, 0, nil, "no-gc-trace"
 		}
-		c.Count("gc_cycles_observed", int64(cycles))
-		outs[k] = strings.TrimSpace(string(res.Stdout))
-		if want := strconv.Itoa(n); outs[k] != want {
-			return run.Failf("gojq %q on a stream of %d values printed %q", t.Args, n, run.Clip(outs[k]))
+		c.Count("gc_cycles_observed", int64(len(cycles)))
+		live = slices.Min(cycles[max(0, len(cycles)-4):])
+		if got, want := strings.TrimSpace(string(res.Stdout)), strconv.Itoa(n); got != want {
+			return 0, 0, run.Failf("gojq %q on a stream of %d values printed %q", t.Args, n, run.Clip(got)), ""
 		}
 		c.Count("stream_values_consumed", int64(n))
+		return live, kib, nil, ""
 	}
-	c.Logf("reachable heap at most %d MB for 4 MiB, %d MB for 48 MiB; peak RSS %d / %d KiB", live[0], live[1], rss[0], rss[1])
-	c.Gauge("max_reachable_heap_mb_48MiB", live[1])
-	c.Gauge("max_peak_rss_kib_48MiB", rss[1])
-	if live[1] > live[0]+16 {
-		return run.Failf("gojq %q reading a %s stream from a pipe: the collector finds at most %d MB reachable for 4 MiB of input, %d MB for 48 MiB (what is kept grows with the amount consumed; peak RSS %d / %d KiB)", t.Args, t.Style, live[0], live[1], rss[0], rss[1])
+	small, rssSmall, f, inc := measure(4 << 20)
+	if f != nil || inc != "" {
+		if inc != "" {
+			c.Inconclusive(inc)
+		}
+		return f
+	}
+	var large, rssLarge int64
+	for attempt := 0; attempt < 3; attempt++ {
+		large, rssLarge, f, inc = measure(48 << 20)
+		if f != nil || inc != "" {
+			if inc != "" {
+				c.Inconclusive(inc)
+			}
+			return f
+		}
+		if large <= small+16 {
+			break
+		}
+		c.Count("large_runs_repeated", 1)
+	}
+	c.Logf("reachable heap (least of the last 4 cycles) %d MB for 4 MiB, %d MB for 48 MiB; peak RSS %d / %d KiB", small, large, rssSmall, rssLarge)
+	c.Gauge("max_reachable_heap_mb_48MiB", large)
+	c.Gauge("max_peak_rss_kib_48MiB", rssLarge)
+	if large > small+16 {
+		return run.Failf("gojq %q reading a %s stream from a pipe: in its last four cycles the collector never finds less than %d MB reachable for 4 MiB of input, %d MB for 48 MiB, in three runs out of three (what is kept grows with the amount consumed; peak RSS %d / %d KiB)", t.Args, t.Style, small, large, rssSmall, rssLarge)
 	}
 	c.Nontrivial("cmd|" + t.Style + "|" + strings.Join(t.Args, " "))
 	return nil
@@ -264,6 +283,11 @@ var c20Loops = []string{
 	"0 as $a | 1 as $one | def f: . as $v | (if $v >= 0 then . else $a end | $one) | . + $v | if . >= $n then . else f end; 0 | f", "0 as $a | 1 as $one | def f: . as $v | ((., $a) | $one) | select(. == 1) | first(., .) + $v - 0 | if . >= $n then . else f end; 0 | f"[:0] + "0 as $a | 1 as $one | def f: . as $v | (if $v < 0 then $a else . end | $one) + $v | if . >= $n then . else f end; 0 | f",
 	"1 as $one | 0 | until(. >= $n; . as $v | (if $v >= 0 then . else 0 end | $one) + $v)", "1 as $one | reduce range($n) as $i (0; . as $v | (if $v >= 0 then . else $i end | $one) + $v)",
 	"[1] as [$one] | def f: . as $v | (if $v % 2 == 0 then [$v] else $v end | $one) + $v | if . >= $n then . else f end; 0 | f", "{a: 1} as {a: $one} | def f: (. as $v | if . then ., $v else $v end | $one) + . | if . >= $n then . else f end; 0 | [limit(1; f)] | .[0]"[:0] + "{a: 1} as {a: $one} | def f: . as $v | (if true then $v else . end | $one) + $v | if . >= $n then . else f end; 0 | f",
+	// turns that catch an error (of a builtin, of error/1, of an index, of a failed conversion): what the failed body had on the stack must be gone
+	"0 | until(. >= $n; . as $i | try (\"x\" | tonumber) catch ($i + 1))", "0 | until(. >= $n; . as $i | try error(\"x\") catch ($i + 1))", "0 | until(. >= $n; . as $i | try error({a: $i}) catch (.a + 1))", "0 | until(. >= $n; . as $i | try ({} | keys[0] | ascii_downcase) catch ($i + 1))",
+	"def f: if . >= $n then . else . as $i | try ([] | implode | .[0] | error) catch ($i + 1) | f end; 0 | f", "def f: if . >= $n then . else . as $i | try ({} | .[0]) catch ($i + 1) | f end; 0 | f", "def f: if . >= $n then . else . as $i | (try (\"a\" | . - 1) catch $i) + 1 | f end; 0 | f",
+	"0 | until(. >= $n; . as $i | [.[0]?, $i + 1] | .[-1])", "0 | until(. >= $n; . as $i | (try error catch $i) + 1)", "0 | until(. >= $n; . as $i | try (null | fromjson) catch ($i + 1))", "reduce range($n) as $i (0; try (\"x\" | tonumber) catch ($i + 1))", "last(foreach range($n) as $i (0; try ({} | has(0)) catch ($i + 1)))",
+	"last(limit($n + 1; 0 | recurse(. as $i | try (\"x\" | tonumber) catch ($i + 1))))", "0 | last(while(. < $n; . as $i | try ({a: 1} | .[0]) catch ($i + 1)))", "def f: if . >= $n then . else . as $i | try (try (\"x\" | tonumber) catch error) catch ($i + 1) | f end; 0 | f",
 	// turns that pass through the last (or only) member of a container before going on without backtracking
 	"0 | until(. >= $n; [. + 1][])", "0 | until(. >= $n; {a: (. + 1)}[])", "0 | until(. >= $n; [., . + 1] | .[1:][])", "0 | until(. >= $n; [. + 1] | .[0:][])", "0 | until(. >= $n; {a: (. + 1)} | .[keys[]])", "0 | until(. >= $n; {a: (. + 1)} | to_entries[] | .value)",
 	"0 | until(. >= $n; tostring | split(\",\")[] | tonumber + 1)", "0 | until(. >= $n; [[. + 1]][][])", "0 | until(. >= $n; . + 1 | tostring | [scan(\"[0-9]+\")][] | tonumber)", "0 | until(. >= $n; [. + 1] | .[-1:][])",
@@ -349,7 +373,7 @@ func c20TR(r *rand.Rand, name string, emit bool, d int) string {
 func init() {
 	run.Register(&run.Prop{
 		ID: "C20", Level: "exploration", MinNontrivial: 100,
-		Rule:        "a case is (iteration form, mode, n). gen: one live iterator is advanced by the real VM; the interpreter footprint (lengths of the data stack, path stack, scope stack and register file backing arrays — high-water marks — plus fork-stack capacity, read through the verif hook) is read after n and after 8n outputs and must not grow by more than 16 slots; loop: the form is run to its first result with $n = n and $n = 8n and the footprints compared the same way. Forms: every iteration builtin named by the property (range, while, until, repeat, recurse, limit, first, last, reduce, foreach, inputs over an endless iterator), each nested one level inside others, and parameterless self-recursive definitions whose recursive call is in syntactic tail position (branch of if/elif/else, right of a pipe whose left side is single-output, right operand of //, last operand of a comma, body of `as` incl. destructuring, after local defs, inner tail-recursive definitions). A prefix of the outputs / the result is also compared with the reference interpreter so that constant space is not obtained by dropping values. command: the real command consumes a 4 MiB and a 48 MiB stream from a pipe (9 line disciplines x consuming programs) with GODEBUG=gctrace=1; the largest reachable heap any collection cycle reports must not grow by more than 16 MB (peak RSS is recorded, not judged: it depends on the load of the machine). command-files: `inputs`, `input`, --slurp, --stream, -R and the per-input loop over 150 and over 600 one-line files with a descriptor limit of 32 (soft and hard) must reach the last file and print the count and sum of what the files hold. Non-trivial = every distinct (form, mode, n).",
+		Rule:        "a case is (iteration form, mode, n). gen: one live iterator is advanced by the real VM; the interpreter footprint (lengths of the data stack, path stack, scope stack and register file backing arrays — high-water marks — plus fork-stack capacity, read through the verif hook) is read after n and after 8n outputs and must not grow by more than 16 slots; loop: the form is run to its first result with $n = n and $n = 8n and the footprints compared the same way. Forms: every iteration builtin named by the property (range, while, until, repeat, recurse, limit, first, last, reduce, foreach, inputs over an endless iterator), each nested one level inside others, and parameterless self-recursive definitions whose recursive call is in syntactic tail position (branch of if/elif/else, right of a pipe whose left side is single-output, right operand of //, last operand of a comma, body of `as` incl. destructuring, after local defs, inner tail-recursive definitions). A prefix of the outputs / the result is also compared with the reference interpreter so that constant space is not obtained by dropping values. command: the real command consumes a 4 MiB and a 48 MiB stream from a pipe (9 line disciplines x consuming programs) with GODEBUG=gctrace=1; the smallest reachable heap the last four collection cycles of a run report (one P, so that collector and program are starved together) must not be more than 16 MB larger for the large stream, in three runs out of three (peak RSS is recorded, not judged: it depends on the load of the machine). command-files: `inputs`, `input`, --slurp, --stream, -R and the per-input loop over 150 and over 600 one-line files with a descriptor limit of 32 (soft and hard) must reach the last file and print the count and sum of what the files hold. Non-trivial = every distinct (form, mode, n).",
 		Assumptions: []string{"interpreter state = the five structures exposed by VerifFootprint; Go heap retained elsewhere is measured only for the command, through the collector's own trace", "tail position is syntactic and fork-free; calls under try/label/left of // and functions with parameters are outside the statement"},
 		Body: func(c *run.Ctx) {
 			ns := []int{1000}
